@@ -58,14 +58,19 @@ partial def showTm : Tm → String
 def showSubst (σ : Subst) : String :=
   "(" ++ " ".intercalate (σ.map fun (v, t) => s!"({v} {showTm t})") ++ ")"
 
-def fuel : Nat := 1000000
+
+/-- the fuel `unify_terminates_explicit` proves sufficient for the one `unify` call made by `checkAgainst` -/
+def callFuel (p0 : Nat) (exp : Tm) (fresh : List V) (act : Tm) : Nat :=
+  match act with
+  | .node (.func fl _) args => fuelBound exp (.node (.func fl p0) (instBList (fresh.map .var) args)) []
+  | _ => 1
 
 def handle (line : String) : String :=
   match Sexp.parse line with
   | some (.list [.atom "unify", e, s, t, sg]) =>
     match env? e, tm? s, tm? t, subst? sg with
     | some E, some s, some t, some σ =>
-      match unify E fuel s t σ with
+      match unify E (fuelBound s t σ) s t σ with
       | .oof => "oof"
       | .fail => "fail"
       | .ok σ' => "ok " ++ showSubst σ'
@@ -81,7 +86,7 @@ def handle (line : String) : String :=
   | some (.list [.atom "cta", e, p0, x, fr, a]) =>
     match env? e, p0.asNat?, tm? x, fr.natList?, tm? a with
     | some E, some p0, some x, some fr, some a =>
-      match checkAgainst E fuel p0 x fr a with
+      match checkAgainst E (callFuel p0 x fr a) p0 x fr a with
       | .oof => "oof"
       | .mismatch => "mismatch"
       | .cantInfer i => s!"cant-infer {i}"
